@@ -24,6 +24,7 @@
 #include <boost/property_tree/ptree.hpp>
 #include <vf/vf.hpp>
 #include <functional>
+#include <algorithm>
 #include <memory>
 #include <map>
 #include <type_traits>
@@ -96,6 +97,7 @@ struct TableBase {
     std::vector<std::string> levels;            // nesting levels ("" = root, "coarsening", "coarsening.aggr", ...)
     std::vector<std::string> own_names;         // member names of the struct itself (for the documentation pass)
     std::function<void(ptree&)> base;           // mandatory keys of the component (none for most)
+    std::map<std::string, std::set<std::string>> accepts;   // level -> names the struct whitelists on behalf of a params class derived from it (C14_ACCEPTS)
     void child(const std::string &path) { levels.push_back(path); if (path.find('.') == std::string::npos) own_names.push_back(path); }
 };
 
@@ -114,6 +116,26 @@ inline void collect_leaves(const ptree &t, const std::string &pre, std::vector<s
 inline std::string first_unknown() { return unknown_log().empty() ? std::string() : unknown_log().front(); }
 inline ptree child_or_empty(const ptree &t, const std::string &path) { if (path.empty()) return t; auto c = t.get_child_optional(path); return c ? *c : ptree(); }
 inline void erase_path(ptree &t, const std::string &path) { size_t d = path.rfind('.'); if (d == std::string::npos) { t.erase(path); return; } if (auto c = t.get_child_optional(path.substr(0, d))) c->erase(path.substr(d + 1)); }
+
+// Universe of key names for the sibling-key injection: every field / child name of every params struct.  The static part makes
+// the small binaries (probe tables) use the same universe; every table adds its own names when it is built.
+inline std::set<std::string> &key_universe() {
+    static std::set<std::string> u = {"maxiter", "tol", "abstol", "ns_search", "verbose", "check_after", "pside", "L", "delta", "convex", "M", "K", "always_reset", "s", "omega",
+        "smoothing", "replacement", "damping", "serial", "degree", "higher", "lower", "power_iters", "scale", "iters", "k", "p", "tau", "solve", "eps_strong", "block_size",
+        "cols", "rows", "B", "aggr", "nullspace", "over_interp", "relax", "estimate_spectral_radius", "do_trunc", "eps_trunc", "coarsening", "coarse_enough", "direct_coarse",
+        "max_levels", "npre", "npost", "ncycle", "pre_cycles", "allow_rebuild", "precond", "solver", "nvec", "vec", "pprecond", "sprecond", "active_rows", "eps_dd", "eps_ps",
+        "weights", "weights_size", "usolver", "psolver", "type", "approx_schur", "adjust_p", "simplec_dia", "pmask", "pmask_size", "pmask_pattern", "direct", "repart", "enable",
+        "min_per_proc", "shrink_ratio", "local", "isolver", "dsolver", "num_def_vec", "def_vec"};
+    return u;
+}
+// level -> names that are documented keys at that level of the table
+inline std::map<std::string, std::set<std::string>> level_names(const TableBase &tb) {
+    std::map<std::string, std::set<std::string>> m; for (auto &l : tb.levels) m[l];
+    auto add = [&](const std::string &path) { size_t d = path.rfind('.'); if (d == std::string::npos) m[""].insert(path); else m[path.substr(0, d)].insert(path.substr(d + 1)); };
+    for (auto &f : tb.fields) for (auto &k : f.keys) add(k);
+    for (auto &l : tb.levels) if (!l.empty()) add(l);
+    return m;
+}
 
 // (doc_class -> own member names) for the documentation pass
 inline std::map<std::string, std::set<std::string>> &table_members() { static std::map<std::string, std::set<std::string>> m; return m; }
@@ -177,6 +199,22 @@ inline void run_table(TableBase &tb, long idx, int rep) {
             c.check(seen, "unknown:" + C + ":" + lv + ":not-reported", "extra key '" + name + "' at level '" + lv + "' was dropped silently");
             for (size_t k = 0; k < tb.fields.size(); ++k) if (present[k]) c.check(tb.fields[k].has(mem(p2, tb.fields[k])), "unknown:" + C + ":" + lv + ":disturbs:" + tb.fields[k].key, "an extra key changed the import of a documented one");
         }
+        // sibling keys: every name that is a documented key of SOME params struct but not of this level must be reported too
+        // (a check_params list copied from a sibling class would accept them silently)
+        { auto names = level_names(tb);
+          for (auto &lvl : tb.levels) {
+            std::string lv = lvl.empty() ? "<root>" : lvl; ptree t3 = t; std::vector<std::string> injected;
+            auto acc = tb.accepts.find(lvl);
+            for (auto &name : key_universe()) { if (names[lvl].count(name)) continue;
+                if (acc != tb.accepts.end() && acc->second.count(name)) { vf::obs_add("keys_whitelisted_for_a_derived_params_class", C + ":" + lv + "." + name); continue; }
+                t3.put((lvl.empty() ? "" : lvl + ".") + name, 1); injected.push_back(name); }
+            unknown_log().clear(); Obj p3(tb.ops.make(&t3), &tb.ops);
+            std::set<std::string> seen(unknown_log().begin(), unknown_log().end());
+            for (auto &name : injected) c.check(seen.count(name) > 0, "unknown:" + C + ":" + lv + ":foreign-key-not-reported:" + name, "key '" + name + "' (a parameter of another component) at level '" + lv + "' is neither a member of this struct nor reported through the unknown-parameter hook");
+            for (auto &u : seen) if (!std::count(injected.begin(), injected.end(), u)) c.fail("unknown:" + C + ":" + lv + ":other-key-reported:" + u, "injecting foreign keys made the hook report a documented key");
+            for (size_t k = 0; k < tb.fields.size(); ++k) if (present[k]) c.check(tb.fields[k].has(mem(p3, tb.fields[k])), "unknown:" + C + ":" + lv + ":foreign-keys-disturb:" + tb.fields[k].key, "foreign keys changed the import of a documented one");
+            vf::obs_sum("foreign_keys_injected", (double)injected.size());
+          } }
         // isolation: one key at a time (last: it overwrites the remembered values)
         for (size_t k = 0; k < tb.fields.size(); ++k) { auto &fk = tb.fields[k];
             ptree t1 = base; fk.put(r, t1, mem(dflt, fk), 0);
@@ -201,6 +239,9 @@ inline void run_table(TableBase &tb, long idx, int rep) {
 #define C14_CHILD(m) { tb.child(pre + #m); auto sub = [acc](P &p) -> auto& { return acc(p).m; }; \
     add_fields(tb, pre + #m ".", sub, (typename std::decay<decltype(acc(std::declval<P&>()).m)>::type*)0); }
 
+// the struct's check_params list names this key although the struct has no such member (it is a member of a params class derived from it)
+#define C14_ACCEPTS(m) tb.accepts[pre.empty() ? std::string() : pre.substr(0, pre.size() - 1)].insert(#m);
+
 C14_FIELDS(amgcl::detail::empty_params) {}
 
 template <class P> void *ops_make(const ptree *t) { return t ? new P(*t) : new P(); }
@@ -213,6 +254,8 @@ template <class P, bool WithExport = true> Table<P> make_table(const std::string
     tb.ops.make = &ops_make<P>; tb.ops.destroy = &ops_destroy<P>;
     if constexpr (WithExport) tb.ops.get = &ops_get<P>;
     if (base) { ptree b; base(b); tb.probe.reset(new P(b)); } else tb.probe.reset(new P());
-    add_fields(tb, "", [](P &p) -> P& { return p; }, (P*)0); return tb;
+    add_fields(tb, "", [](P &p) -> P& { return p; }, (P*)0);
+    for (auto &lv : level_names(tb)) for (auto &n : lv.second) key_universe().insert(n);
+    return tb;
 }
 } // namespace c14
